@@ -8,6 +8,7 @@ import (
 	"runtime/debug"
 	"os"
 
+	"verif/internal/cfglife"
 	"verif/internal/core"
 	"verif/internal/crash"
 	"verif/internal/legacy"
@@ -26,24 +27,33 @@ import (
 var checks = map[string]func(*core.Ctx){
 	"C01": func(c *core.Ctx) { sched.Run(c); qevent.RunGroupClause(c) },
 	"C02": sched.Run,
-	"C03": sched.Run,
+	"C03": func(c *core.Ctx) { withConfig(c, sched.Run) },
 	"C04": reqsim.Run,
 	"C05": reqsim.Run,
 	"C06": muxdiff.Run,
 	"C07": reqsim.Run,
-	"C08": reqsim.Run,
-	"C09": subs.Run,
+	"C08": func(c *core.Ctx) { withConfig(c, reqsim.Run) },
+	"C09": func(c *core.Ctx) { withConfig(c, subs.Run) },
 	"C10": storesim.RunC10,
 	"C11": storesim.RunC11,
 	"C12": crash.Run,
 	"C13": storesim.RunC13,
 	"C14": storesim.RunC14,
-	"C15": qevent.Run,
+	"C15": func(c *core.Ctx) { withConfig(c, qevent.Run) },
 	"C16": racer.Run,
 	"C17": pattern.Run,
 	"C18": wire.Run,
 	"C19": sendreq.Run,
 	"C20": legacy.Run,
+}
+
+// withConfig runs the property's engine and the configuration life-cycle binding (ResConfig), which
+// reports the deviations that concern the property. VERIF_ONLY=cfglife runs the latter alone.
+func withConfig(c *core.Ctx, run func(*core.Ctx)) {
+	if os.Getenv("VERIF_ONLY") != "cfglife" {
+		run(c)
+	}
+	cfglife.Run(c)
 }
 
 func main() {
